@@ -1,9 +1,250 @@
 import WM.Proto
+import WM.Model.Normalize
+import WM.Model.NormalizeReader
+import WM.Spec.Sat
+import WM.Spec.Clean
+import WM.Spec.CleanS
 namespace WM.Drv.C15
-open WM.Proto
+open WM.Proto WM.Normalize WM.Sat
 
-/-- Protocol handler of family `c15` (requests arrive without the family token). -/
+/-! Wire format of query trees (see `harness/gen/normalize.py`, `q2s`):
+`null`, `(every F B)`, `(term F T B)`, `(pre F T B CS)`, `(wild F T B CS)`, `(multi K F T KEY B)`,
+`(range F LO HI LX HX B CS)`, `(phrase F (T..) SLOP B)`, `(and|or|dismax (Q..) B)`,
+`(seq CLS (Q..) SLOP ORD B)`, `(not Q B)`, `(andnot|andmaybe|require|otherwise A B)`,
+`(const Q S)`; `F` a field id or `none`, `T` a list of code points, `B` a rational. -/
+
+def text? (e : SExp) : Option Text := e.natList?
+
+def ck? : String → Option CK
+  | "and" => some .and | "or" => some .or | "dismax" => some .dismax | _ => none
+def bk? : String → Option BK
+  | "andnot" => some .andnot | "andmaybe" => some .andmaybe | "require" => some .require
+  | "otherwise" => some .otherwise | _ => none
+
+mutual
+partial def q? : SExp → Option Q
+  | .atom "null" => some .null
+  | .list [.atom "every", f, b] => do some (.every (← f.opt? SExp.nat?) (← b.rat?))
+  | .list [.atom "term", f, t, b] => do some (.term (← f.nat?) (← text? t) (← b.rat?))
+  | .list [.atom "pre", f, t, b, c] => do some (.pre (← f.nat?) (← text? t) (← b.rat?) (← c.bool?))
+  | .list [.atom "wild", f, t, b, c] => do some (.wild (← f.nat?) (← text? t) (← b.rat?) (← c.bool?))
+  | .list [.atom "multi", k, f, t, key, b] => do
+    some (.multi (← k.nat?) (← f.nat?) (← text? t) (← key.nat?) (← b.rat?))
+  | .list [.atom "range", f, lo, hi, lx, hx, b, c] => do
+    some (.range (← f.nat?) (← lo.opt? text?) (← hi.opt? text?) (← lx.bool?) (← hx.bool?) (← b.rat?)
+      (← c.bool?))
+  | .list [.atom "phrase", f, ws, s, b] => do
+    some (.phrase (← f.nat?) (← ws.listOf? text?) (← s.nat?) (← b.rat?))
+  | .list [.atom "seq", c, qs, s, o, b] => do
+    some (.seq (← c.bool?) (← qs? qs) (← s.nat?) (← o.bool?) (← b.rat?))
+  | .list [.atom "not", q, b] => do some (.not (← q? q) (← b.rat?))
+  | .list [.atom "const", q, s] => do some (.const (← q? q) (← s.rat?))
+  | .list [.atom tag, x, y] =>
+    match ck? tag, bk? tag with
+    | some k, _ => do some (.comp k (← qs? x) (← y.rat?))
+    | _, some k => do some (.bin k (← q? x) (← q? y))
+    | _, _ => none
+  | _ => none
+partial def qs? : SExp → Option (List Q)
+  | .list xs => xs.mapM q?
+  | _ => none
+end
+
+def showText (t : Text) : String := showNatList t
+def showCK : CK → String
+  | .and => "and" | .or => "or" | .dismax => "dismax"
+def showBK : BK → String
+  | .andnot => "andnot" | .andmaybe => "andmaybe" | .require => "require" | .otherwise => "otherwise"
+
+mutual
+def showQ : Q → String
+  | .null => "null"
+  | .every f b => s!"(every {showOpt toString f} {showRat b})"
+  | .term f t b => s!"(term {f} {showText t} {showRat b})"
+  | .pre f t b c => s!"(pre {f} {showText t} {showRat b} {showBool c})"
+  | .wild f t b c => s!"(wild {f} {showText t} {showRat b} {showBool c})"
+  | .multi k f t key b => s!"(multi {k} {f} {showText t} {key} {showRat b})"
+  | .range f lo hi lx hx b c =>
+    s!"(range {f} {showOpt showText lo} {showOpt showText hi} {showBool lx} {showBool hx} {showRat b} {showBool c})"
+  | .phrase f ws s b => s!"(phrase {f} {showList showText ws} {s} {showRat b})"
+  | .comp k qs b => s!"({showCK k} ({showQs qs}) {showRat b})"
+  | .seq c qs s o b => s!"(seq {showBool c} ({showQs qs}) {s} {showBool o} {showRat b})"
+  | .not q b => s!"(not {showQ q} {showRat b})"
+  | .bin k a b => s!"({showBK k} {showQ a} {showQ b})"
+  | .const q s => s!"(const {showQ q} {showRat s})"
+def showQs : List Q → String
+  | [] => ""
+  | [q] => showQ q
+  | q :: qs => showQ q ++ " " ++ showQs qs
+end
+
+/-! ### Environments for the oracle
+
+`(env (docs (ID (F tok tok ..) (F ..)) ..) (multi (K F T KEY (term ..)) ..) (seq (CLS SLOP ORD (Q..) (docid ..)) ..))`
+-/
+
+/-- `fnmatch.translate`'s reading of a bracket expression (text after the `[`): optional `!`,
+    an optional leading `]`, then everything up to the next `]`; `a-c` is a range. -/
+def bracketFn (rest : Text) : Option ((Nat → Bool) × Nat) :=
+  let neg := rest.head? == some 33
+  let body0 := if neg then rest.drop 1 else rest
+  -- a `]` right at the start is a member, not the end
+  let lead := body0.head? == some 93
+  let body1 := if lead then body0.drop 1 else body0
+  let n := body1.idxOf 93
+  if n ≥ body1.length then none else
+  let stuff := (if lead then [93] else []) ++ body1.take n
+  let consumed := (if neg then 1 else 0) + (if lead then 1 else 0) + n + 1
+  let rec members : List Nat → (Nat → Bool)
+    | a :: 45 :: b :: more => fun c => (a ≤ c && c ≤ b) || members more c
+    | a :: more => fun c => c == a || members more c
+    | [] => fun _ => false
+  let p := members stuff
+  if stuff.isEmpty then
+    -- "[]" cannot happen (lead), "[!]" likewise; kept for totality
+    some ((fun _ => neg), consumed)
+  else some ((fun c => if neg then !p c else p c), consumed)
+
+def doc? (e : SExp) : Option Doc := do
+  let xs ← e.list?
+  match xs with
+  | idx :: flds =>
+    let id ← idx.nat?
+    let fs ← flds.mapM fun fe => do
+      let ys ← fe.list?
+      match ys with
+      | f :: toks => some (← f.nat?, ← toks.mapM text?)
+      | [] => none
+    some { id := id, toks := fun f => (fs.filter (·.1 == f)).flatMap (·.2) }
+  | [] => none
+
+structure MultiRow where
+  k : Nat
+  f : Field
+  t : Text
+  key : Nat
+  terms : List Text
+
+def multiRow? (e : SExp) : Option MultiRow := do
+  match ← e.list? with
+  | [k, f, t, key, terms] =>
+    some ⟨← k.nat?, ← f.nat?, ← text? t, ← key.nat?, ← terms.listOf? text?⟩
+  | _ => none
+
+structure SeqRow where
+  cls : Bool
+  slop : Nat
+  ord : Bool
+  qs : List Q
+  docs : List Nat
+
+def seqRow? (e : SExp) : Option SeqRow := do
+  match ← e.list? with
+  | [c, s, o, qs, docs] => some ⟨← c.bool?, ← s.nat?, ← o.bool?, ← qs? qs, ← docs.natList?⟩
+  | _ => none
+
+def env? (e : SExp) : Option Env := do
+  match ← e.list? with
+  | [.atom "env", .list (.atom "docs" :: ds), .list (.atom "multi" :: ms), .list (.atom "seq" :: ss)] =>
+    let docs ← ds.mapM doc?
+    let mrows ← ms.mapM multiRow?
+    let srows ← ss.mapM seqRow?
+    some {
+      multi := fun k f t key x =>
+        mrows.any fun r => r.k == k && r.f == f && r.t == t && r.key == key && r.terms.contains x
+      bracket := bracketFn
+      seqPos := fun c s o qs d =>
+        srows.any fun r => r.cls == c && r.slop == s && r.ord == o && Q.beqList r.qs qs
+          && r.docs.contains d.id
+      index := docs }
+  | _ => none
+
+def showTags (ts : List String) : String := "(" ++ " ".intercalate ts ++ ")"
+
+/-- Reader for `simplify`/`estimate_size`: `(reader (schema F ..) (lex (F term ..) ..))`. -/
+def reader? (env : Env) (e : SExp) : Option Reader := do
+  match ← e.list? with
+  | [.atom "reader", .list (.atom "schema" :: fs), .list (.atom "lex" :: ls)] =>
+    let fields ← fs.mapM SExp.nat?
+    let lex ← ls.mapM fun le => do
+      match ← le.list? with
+      | f :: terms => some (← f.nat?, ← terms.mapM text?)
+      | [] => none
+    some {
+      fields := fields
+      lexicon := fun f => (lex.filter (·.1 == f)).flatMap (·.2)
+      docs := env.index }
+  | _ => none
+
+def showOptNat : Option Nat → String
+  | none => "err"
+  | some n => toString n
+
 def handle : List SExp → String
+  | [.atom "norm", q] =>
+    match q? q with
+    | some q => showQ (normalize q)
+    | none => "bad-op"
+  | [.atom "norm2", q] =>
+    match q? q with
+    | some q => showQ (normalize (normalize q))
+    | none => "bad-op"
+  | [.atom "op", .atom o, a, b] =>
+    match q? a, q? b with
+    | some a, some b =>
+      match o with
+      | "and" => showQ (opAnd a b)
+      | "or" => showQ (opOr a b)
+      | "sub" => showQ (opSub a b)
+      | _ => "bad-op"
+    | _, _ => "bad-op"
+  | [.atom "boost", q, b] =>
+    match q? q, b.rat? with
+    | some q, some b => showQ (q.withBoost b)
+    | _, _ => "bad-op"
+  | [.atom "replace", f, old, new, q] =>
+    match f.nat?, text? old, text? new, q? q with
+    | some f, some o, some n, some q => showQ (replace f o n q)
+    | _, _, _, _ => "bad-op"
+  | [.atom "accept", q] =>
+    match q? q with
+    | some q => showQ (acceptId q)
+    | none => "bad-op"
+  | [.atom "field", q] =>
+    match q? q with
+    | some q => showOpt toString q.field
+    | none => "bad-op"
+  | [.atom "defects", q] =>
+    match q? q with
+    | some q => showTags (WM.Clean.defects q) ++ " " ++ showBool (WM.Clean.clean q)
+    | none => "bad-op"
+  | [.atom "answers", e, qs] =>
+    match env? e, qs? qs with
+    | some env, some qs => showList (fun q => showNatList (answer env q)) qs
+    | _, _ => "bad-op"
+  | [.atom "simplify", e, r, qs] =>
+    match env? e with
+    | some env =>
+      match reader? env r, qs? qs with
+      | some rd, some qs => showList (fun q => showQ (simplify env.multi env.bracket rd q)) qs
+      | _, _ => "bad-op"
+    | none => "bad-op"
+  | [.atom "sdefects", e, r, q] =>
+    match env? e with
+    | some env =>
+      match reader? env r, q? q with
+      | some rd, some q =>
+        showTags (WM.Clean.defectsS env.multi env.bracket rd q) ++ " "
+          ++ showBool (WM.Clean.cleanS env.multi env.bracket rd q)
+      | _, _ => "bad-op"
+    | none => "bad-op"
+  | [.atom "estimate", e, r, qs] =>
+    match env? e with
+    | some env =>
+      match reader? env r, qs? qs with
+      | some rd, some qs => showList (fun q => showOptNat (estimate env.multi env.bracket rd q)) qs
+      | _, _ => "bad-op"
+    | none => "bad-op"
   | _ => "bad-op"
 
 end WM.Drv.C15
